@@ -19,7 +19,12 @@ AUTHOR_R6 = ('sub-agent asked for a change that breaks the property only at a bo
 AUTHORS = {6: AUTHOR_R6,
            7: ('sub-agent asked to play a maintainer making the tool faster or tidier and getting it subtly wrong: caches and memos '
                'with too coarse a key or no invalidation, fast paths, lazy evaluation, early exits, shared objects (saw the property '
-               'text, a scratch worktree and one-line descriptions of earlier rounds; no /verif)')}
+               'text, a scratch worktree and one-line descriptions of earlier rounds; no /verif)'),
+           8: ('sub-agent asked for a change that breaks the property only through error paths, recovery and feature interplay: the '
+               'state left behind after something went slightly wrong and was handled (a rejected command, a warning, an unresolvable '
+               'object, a line that is not a message, a duplicate open/close, a caught exception, an interrupt), clean-up paths, or two '
+               'features that each work alone; written as a plausible well-meaning commit (saw the property text, a scratch worktree '
+               'and one-line descriptions of earlier rounds; no /verif)')}
 
 
 def main():
